@@ -63,10 +63,12 @@ pub mod verif_proofs {
         LongTermKeyBundle::new(id, pk, sig)
     }
 
+    /// two independent wall-clock readings: the clock may also have stepped BACKWARDS between add and
+    /// lookup (a bundle accepted earlier can then be "not yet valid" at lookup time)
     fn two_clock_readings() -> (u64, u64) {
         let add = sym::any_u64();
         let lookup = sym::any_u64();
-        sym::assume(add <= lookup);
+        sym::assume(add < (1u64 << 62));
         // SystemTime beyond i64 seconds is not representable
         sym::assume(lookup < (1u64 << 62));
         (add, lookup)
